@@ -33,7 +33,7 @@ static int usable(of_session_t *e, of_session_t *d, void **ref, UINT32 k, UINT32
 	if (e) for (i = k; i < n; i++) { if (of_build_repair_symbol(e, t2, i) != OF_STATUS_OK || memcmp(t2[i], ref[i], L)) ok = 0; }
 	if (d) {
 		for (i = 1; i < n; i++) { rx[i] = malloc(L); memcpy(rx[i], ref[i], L); if (of_decode_with_new_symbol(d, rx[i], i) != OF_STATUS_OK) ok = 0; }
-		of_finish_decoding(d);
+		if (of_finish_decoding(d) != OF_STATUS_OK) ok = 0;	/* every symbol but source 0 was submitted: decodable, so the status must be OK */
 		if (!of_is_decoding_complete(d)) ok = 0;
 		else if (of_get_source_symbols_tab(d, src) != OF_STATUS_OK || !src[0] || memcmp(src[0], ref[0], L)) ok = 0;
 	}
